@@ -153,6 +153,100 @@ static void handler(const Line& t, Out& o) {
     regs[(long)t.at(2)] = std::move(p);
     o.R(1); break; }
   case 9: { get(t.at(1)).reset(); o.R(1); break; }
+  case 20: { // image: 20 r compact   E hip ; R bytes ; F bytes==stream, advertised size, header form, stream position
+    sk_t& s = get(t.at(1)); bool compact = t.at(2) != 0;
+    double hip = 0;
+    if (s.get_current_mode() == HLL) hip = static_cast<const HllArray<A>*>(s.sketch_impl)->getHipAccum();
+    o.E(vh::dbits(hip));
+    auto bytes = compact ? s.serialize_compact() : s.serialize_updatable();
+    for (uint8_t b : bytes) o.R(b);
+    std::stringstream ss(std::ios::in | std::ios::out | std::ios::binary);
+    if (compact) s.serialize_compact(ss); else s.serialize_updatable(ss);
+    std::string str = ss.str();
+    o.F(str.size() == bytes.size() && std::memcmp(str.data(), bytes.data(), bytes.size()) == 0 ? 1 : 0);
+    o.F(compact ? s.get_compact_serialization_bytes() : s.get_updatable_serialization_bytes());
+    if (compact) {
+      auto hb = s.serialize_compact(5);
+      bool okh = hb.size() == bytes.size() + 5;
+      for (size_t i = 0; okh && i < 5; ++i) okh = hb[i] == 0;
+      for (size_t i = 0; okh && i < bytes.size(); ++i) okh = hb[5 + i] == bytes[i];
+      o.F(okh ? 1 : 0);
+    } else o.F(1);
+    ss.write("xyz", 3); ss.seekg(0);
+    sk_t back = sk_t::deserialize(ss);
+    o.F((long)ss.tellg() == (long)bytes.size() ? 1 : 0);
+    break; }
+  case 21: { // r2 := deserialize(serialize(r)): 21 r2 r compact via
+    sk_t& s = get(t.at(2)); bool compact = t.at(3) != 0;
+    double hip = 0;
+    if (s.get_current_mode() == HLL) hip = static_cast<const HllArray<A>*>(s.sketch_impl)->getHipAccum();
+    o.E(vh::dbits(hip));
+    std::unique_ptr<sk_t> p;
+    if (t.at(4) == 0) {
+      auto bytes = compact ? s.serialize_compact() : s.serialize_updatable();
+      std::unique_ptr<uint8_t[]> buf(new uint8_t[bytes.size()]);
+      std::memcpy(buf.get(), bytes.data(), bytes.size());
+      p.reset(new sk_t(sk_t::deserialize(buf.get(), bytes.size())));
+    } else {
+      std::stringstream ss(std::ios::in | std::ios::out | std::ios::binary);
+      if (compact) s.serialize_compact(ss); else s.serialize_updatable(ss);
+      p.reset(new sk_t(sk_t::deserialize(ss)));
+    }
+    regs[(long)t.at(1)] = std::move(p);
+    o.R(1); break; }
+  case 22: { // r2 := deserialize(bytes): 22 r2 via b*
+    size_t n = t.size() - 3;
+    std::unique_ptr<sk_t> p;
+    if (t.at(2) == 0) {
+      std::unique_ptr<uint8_t[]> buf(new uint8_t[n]);          // exact size: ASan sees any read past the image
+      for (size_t i = 0; i < n; ++i) buf[i] = (uint8_t)t[3 + i];
+      p.reset(new sk_t(sk_t::deserialize(buf.get(), n)));
+      regs[(long)t.at(1)] = std::move(p);
+      o.R(1);
+    } else {
+      std::string str = vh::bytes_of(t, 3);
+      std::stringstream ss(str, std::ios::in | std::ios::binary);
+      p.reset(new sk_t(sk_t::deserialize(ss)));
+      ss.clear();
+      long pos = (long)ss.tellg();
+      regs[(long)t.at(1)] = std::move(p);
+      o.R(1); o.R(pos);
+    }
+    break; }
+  case 23: { // codec-level dump
+    sk_t& s = get(t.at(1));
+    hll_mode m = s.get_current_mode();
+    if (m == HLL) {
+      const HllArray<A>* h = static_cast<const HllArray<A>*>(s.sketch_impl);
+      o.E(vh::dbits(h->getHipAccum())); o.E(vh::dbits(h->getKxQ0())); o.E(vh::dbits(h->getKxQ1()));
+    } else { o.E(0); o.E(0); o.E(0); }
+    o.R(s.get_lg_config_k()); o.R((int)s.get_target_type()); o.R((int)m); o.R(s.is_out_of_order_flag() ? 1 : 0);
+    if (m == LIST || m == SET) {
+      const CouponList<A>* cl = static_cast<const CouponList<A>*>(s.sketch_impl);
+      o.R(cl->getCouponCount());
+      if (m == LIST) { for (uint32_t c : cl->coupons_) o.R(c); }
+      else {
+        o.R((I)count_trailing_zeros_in_u32((uint32_t)cl->coupons_.size()));
+        std::vector<uint32_t> v;
+        for (uint32_t c : cl->coupons_) if (c != 0) v.push_back(c);
+        std::sort(v.begin(), v.end()); v.erase(std::unique(v.begin(), v.end()), v.end());
+        for (uint32_t c : v) o.R(c);
+      }
+    } else {
+      const HllArray<A>* h = static_cast<const HllArray<A>*>(s.sketch_impl);
+      o.R(h->isStartFullSize() ? 1 : 0); o.R(h->getCurMin()); o.R(h->getNumAtCurMin());
+      o.R(vh::dbits(h->getHipAccum())); o.R(vh::dbits(h->getKxQ0())); o.R(vh::dbits(h->getKxQ1()));
+      const AuxHashMap<A>* aux = h->getAuxHashMap();
+      std::vector<uint32_t> ap;
+      if (aux != nullptr) {
+        o.R(aux->getLgAuxArrInts()); o.R(aux->getAuxCount());
+        for (auto it = aux->begin(false); it != aux->end(); ++it) ap.push_back(*it);
+        std::sort(ap.begin(), ap.end()); ap.erase(std::unique(ap.begin(), ap.end()), ap.end());
+      } else { o.R(0); o.R(0); }
+      for (uint32_t c : ap) o.R(c);
+      for (uint8_t b : h->hllByteArr_) o.R(b);
+    }
+    break; }
   case 11: { // coupon of a raw hash state: 11 h1 h2
     HashState hs; hs.h1 = (uint64_t)t.at(1); hs.h2 = (uint64_t)t.at(2);
     o.R((I)HllUtil<A>::coupon(hs)); break; }
